@@ -89,6 +89,11 @@ namespace plan
       op.a = {static_cast<long>(r.below(2)), static_cast<long>(r.below(4)), static_cast<long>(r.below(6)), static_cast<long>(r.below(8))};
     else if (name == "pred")
       op.a = {static_cast<long>(r.chance(1, 2) ? 0 : r.below(3)), static_cast<long>(r.below(3))};
+    else if (name == "tpred") // a temporal predicate (Interval or Impulse)
+    {
+      op.name = "pred";
+      op.a = {static_cast<long>(1 + r.below(2)), static_cast<long>(r.below(3))};
+    }
     else if (name == "r_rel")
     {
       op.a.push_back(static_cast<long>(r.below(8)));
@@ -181,6 +186,14 @@ namespace plan
       rr = sw.chance(1, 3);
       logic = sw.chance(1, 4);
     }
+    else if (prop == "C19")
+    { // execution: temporal atoms wanted
+      causal = true;
+      sv = sw.chance(1, 2);
+      rr = sw.chance(1, 4);
+      objects = sw.chance(1, 8);
+      logic = sw.chance(1, 4);
+    }
     else if (prop == "C17")
     {
       objects = true;
@@ -216,7 +229,7 @@ namespace plan
     {
       int np = static_cast<int>(sw.range(1, 4));
       for (int i = 0; i < np; ++i)
-        ops.push_back(g_op(g, "pred"));
+        ops.push_back(g_op(g, prop == "C19" || (prop == "C06" && g.chance(2, 3)) ? "tpred" : "pred"));
     }
     if (causal || sv)
       for (int i = 0, n = static_cast<int>(sw.range(1, 6)); i < n; ++i)
